@@ -932,11 +932,20 @@ func (ctx *Context) evaluate() {
 			diceStates[diceStateIndex].highNum, _ = v.ReadInt()
 		case typeDiceSetMin:
 			v := stackPop()
-			i, _ := v.ReadInt()
+			i, ok := v.ReadInt()
+			if !ok {
+				// 与 k/q/dl/dh 的参数一致: 不是整数就报错，而不是当作 0
+				ctx.Error = errors.New("骰子下限不为整数")
+				return
+			}
 			diceStates[diceStateIndex].min = &i
 		case typeDiceSetMax:
 			v := stackPop()
-			i, _ := v.ReadInt()
+			i, ok := v.ReadInt()
+			if !ok {
+				ctx.Error = errors.New("骰子上限不为整数")
+				return
+			}
 			diceStates[diceStateIndex].max = &i
 		case typeDetailMark:
 			span := code.Value.(BufferSpan)
